@@ -630,6 +630,21 @@ func (x *Exec) specBinary(env *Env, t *ast.BinaryExpr) (Val, error) {
 	}
 	A, B := a.t(), b.t()
 	if (a.Typ != nil && isFloat(a.Typ)) || (b.Typ != nil && isFloat(b.Typ)) {
+		// integer literals next to a float operand are real constants
+		if isLiteral(A) && !strings.Contains(A, ".") {
+			if strings.HasPrefix(A, "(- ") {
+				A = "(- " + strings.TrimSuffix(A[3:], ")") + ".0)"
+			} else {
+				A += ".0"
+			}
+		}
+		if isLiteral(B) && !strings.Contains(B, ".") {
+			if strings.HasPrefix(B, "(- ") {
+				B = "(- " + strings.TrimSuffix(B[3:], ")") + ".0)"
+			} else {
+				B += ".0"
+			}
+		}
 		switch t.Op {
 		case token.LSS:
 			return mBool("(flt " + A + " " + B + ")"), nil
@@ -946,6 +961,19 @@ func (x *Exec) specCall(env *Env, c *ast.CallExpr) (Val, error) {
 		rng := smtAnd("(<= 0 "+sym+")", "(< "+sym+" "+cur.L[2]+")")
 		hdr := smtAnd("(= "+cur.L[0]+" "+old.L[0]+")", "(= "+cur.L[1]+" "+old.L[1]+")", "(= "+cur.L[2]+" "+old.L[2]+")")
 		return mBool(smtAnd(hdr, "(forall (("+sym+" Int)) "+smtImp(rng, smtAnd(eqs...))+")")), nil
+	case "sliceoff", "slicearr":
+		// ghost views of a slice header: backing-array identity and start offset inside it
+		v, err := x.spec(env, c.Args[0])
+		if err != nil {
+			return Val{}, err
+		}
+		if _, ok := v.Typ.Underlying().(*types.Slice); !ok || len(v.L) != 4 {
+			return Val{}, fmt.Errorf("%s of non-slice", fname)
+		}
+		if fname == "slicearr" {
+			return mInt(v.L[0]), nil
+		}
+		return mInt(v.L[1]), nil
 	case "isfresh":
 		v, err := x.spec(env, c.Args[0])
 		if err != nil {
